@@ -444,6 +444,106 @@ func checkC08(c *Ctx) *report.Result {
 		}
 	}
 
+	// ---- K-init: the constructed controller. The compositions above start from any register state and write every
+	// register that forms the bank number; here the start is the state the constructor leaves (every scalar cell that
+	// is constant in the constructed machine) and at most one register is written, so the registers not written
+	// contribute their power-on values.
+	r.Rule("K-init", "from the constructed controller: 4000-7FFF shows bank 1 and 0000-3FFF bank 0 before any write; a write to just one bank register combines with the power-on value of the other (MBC5 high bit alone: bank 1 or 0x101; MBC1 BANK2 alone: BANK2<<5 | 1), for every ROM size")
+	{
+		initSt := it.StateOn(c.W.InitHeap)
+		powerOn := func(env *cartEnv) (func(*ai.State), int) {
+			type kv struct {
+				p string
+				v ai.Value
+			}
+			var cells []kv
+			// (cells the constructor leaves at their zero value are absent from the constructed heap: read them through
+			// the typed accessors, which give the zero value)
+			for p, v := range it.StateOn(c.W.Generic).RawCells(env.ct.Obj) {
+				switch v.(type) {
+				case *ai.Int:
+					if x := c.cellInt(initSt, env.ct.Obj, p); x != nil {
+						if _, isc := x.Const(); isc {
+							cells = append(cells, kv{p, x})
+						}
+					}
+				case *ai.Bool:
+					if x := c.cellBool(initSt, env.ct.Obj, p); x != nil {
+						if _, isc := x.Const(); isc {
+							cells = append(cells, kv{p, x})
+						}
+					}
+				}
+			}
+			return func(st *ai.State) {
+				for _, k := range cells {
+					st.SetCell(env.ct.Obj, k.p, k.v)
+				}
+			}, len(cells)
+		}
+		for _, name := range []string{"mbc1", "mbc2", "mbc3", "mbc5"} {
+			env := envs[name]
+			po, ncells := powerOn(env)
+			if ncells == 0 {
+				r.Fail("unresolved", "K-init", name, "", "no scalar cell of the controller is constant in the constructed machine")
+				continue
+			}
+			for _, pages := range romSizes {
+				sz := fmt.Sprintf("%s %d banks", strings.ToUpper(name), pages)
+				if name != "mbc1" {
+					// (MBC1 precomputes its two windows from the registers and the ROM size inside the constructor; with the
+					// size symbolic there the precomputed cells are not constants, so its first read is decided through the
+					// single-register writes below, which recompute both windows from the power-on registers)
+					ev := compose(env, pages, nil, 0x4000, 0x7FFF, po)
+					checkRead("K-init", sz+", no write yet: 4000-7FFF", env, ev, []bitSpec{k1}, 0x4000)
+					ev = compose(env, pages, nil, 0x0000, 0x3FFF, po)
+					checkRead("K-init", sz+", no write yet: 0000-3FFF", env, ev, nil, 0)
+				}
+				switch name {
+				case "mbc5":
+					vh, sh := newV("romb-high")
+					want := []bitSpec{k1, k0, k0, k0, k0, k0, k0, k0, src(sh, 0)}
+					ev := compose(env, pages, []write{{0x3000, vh}}, 0x4000, 0x7FFF, po)
+					checkRead("K-init", sz+", only the high bit written: 4000-7FFF", env, ev, reduce(want, pages), 0x4000)
+					vl, sl := newV("romb-low")
+					want = make([]bitSpec, 9)
+					for i := 0; i < 8; i++ {
+						want[i] = src(sl, i)
+					}
+					want[8] = k0
+					ev = compose(env, pages, []write{{0x2000, vl}}, 0x4000, 0x7FFF, po)
+					checkRead("K-init", sz+", only the low byte written: 4000-7FFF", env, ev, reduce(want, pages), 0x4000)
+				case "mbc1":
+					v2, s2 := newV("bank2")
+					want := []bitSpec{k1, k0, k0, k0, k0, src(s2, 0), src(s2, 1)}
+					ev := compose(env, pages, []write{{0x4000, v2}}, 0x4000, 0x7FFF, po)
+					checkRead("K-init", sz+", only BANK2 written: 4000-7FFF", env, ev, reduce(want, pages), 0x4000)
+					ev = compose(env, pages, []write{{0x4000, v2}}, 0x0000, 0x3FFF, po)
+					checkRead("K-init", sz+", only BANK2 written (mode 0 at power-on): 0000-3FFF", env, ev, nil, 0)
+					for _, mode := range []int{0, 1} {
+						vm := ai.WithBit(ai.NewSymInt(8, false, it.NewSym("written:mode", ai.CellKey{})), 0, mode == 1)
+						ev = compose(env, pages, []write{{0x6000, vm}}, 0x4000, 0x7FFF, po)
+						checkRead("K-init", fmt.Sprintf("%s, only the mode written (%d): 4000-7FFF", sz, mode), env, ev, []bitSpec{k1}, 0x4000)
+						ev = compose(env, pages, []write{{0x6000, vm}}, 0x0000, 0x3FFF, po)
+						checkRead("K-init", fmt.Sprintf("%s, only the mode written (%d): 0000-3FFF", sz, mode), env, ev, nil, 0)
+					}
+					for setBit := 0; setBit < 5; setBit++ {
+						v1, s1 := newV("bank1")
+						v1 = ai.WithBit(v1, setBit, true)
+						want := make([]bitSpec, 7)
+						for i := 0; i < 5; i++ {
+							want[i] = src(s1, i)
+						}
+						want[setBit] = k1
+						want[5], want[6] = k0, k0
+						ev = compose(env, pages, []write{{0x2000, v1}}, 0x4000, 0x7FFF, po)
+						checkRead("K-init", fmt.Sprintf("%s, only BANK1 written (bit %d set): 4000-7FFF", sz, setBit), env, ev, reduce(want, pages), 0x4000)
+					}
+				}
+			}
+		}
+	}
+
 	// ---- K-map: which address intervals store to which controller cells (per controller, 8 banks)
 	for _, name := range []string{"mbc1", "mbc2", "mbc3", "mbc5"} {
 		env := envs[name]
